@@ -76,7 +76,7 @@ pub fn check_info(bl: &[Block], addr: u32) -> Check {
 }
 
 pub fn run(ctx: &Ctx) {
-    ctx.set_rule("all 16,777,216 addresses through tail() (rayon; smallest failing address reported), 2^20 out-of-range 32-bit values for totality, aircraft_information on a stride sample, at both ends of every address block and on the addresses that have a registration (quick: 1 in 64, thorough: all). Oracle: no panic; registrations collected in a HashMap<registration, address> show no collision; for each registration the address-block table (patterns.json parsed independently) has a block containing the address whose own pattern (or a category pattern) matches the registration. Non-trivial = address that has a registration; distinct addresses counted.");
+    ctx.set_rule("all 16,777,216 addresses through tail() (rayon; smallest failing address reported), 2^20 out-of-range 32-bit values for totality, aircraft_information on a stride sample, at both ends of every address block and on the addresses that have a registration (quick: 1 in 64, thorough: all). Oracle: no panic; registrations collected in a HashMap<registration, address> show no collision; for each registration the address-block table (patterns.json parsed independently) has a block containing the address whose own pattern (or a category pattern) matches the registration. Registered addresses are looked up again right after each single-bit neighbour (and the neighbour after them) on one thread: same answers as in the exhaustive pass. Non-trivial = address that has a registration; distinct addresses counted.");
     ctx.assume("patterns.json is the address-block table the property refers to; it is parsed independently of the crate's own loader");
     let bl = blocks();
     ctx.set_extra("address_blocks", json!(bl.len()));
@@ -126,6 +126,38 @@ pub fn run(ctx: &Ctx) {
     ctx.class_n("addresses with a registration", nreg);
     ctx.class_n("addresses without a registration", (1u64 << 24) - nreg);
     ctx.exhaustive.store(true, std::sync::atomic::Ordering::Relaxed);
+    // history independence: every registered address (quick: one in 16) is looked up again right after each of its 24
+    // single-bit neighbours, and the neighbour right after it, on one thread; the answers must be those of the
+    // exhaustive pass (a lookup that remembers part of the previous address gives the neighbour's answer)
+    {
+        let by_addr: HashMap<u32, &String> = map.iter().map(|(r, a)| (*a, r)).collect();
+        let share = ctx.tier.pick(16u32, 1u32);
+        let regd: Vec<u32> = map.values().copied().filter(|a| a % share == 0).collect();
+        let bad = regd
+            .par_chunks(4096)
+            .filter_map(|chunk| {
+                for &a in chunk {
+                    for b in 0..24u32 {
+                        let n = a ^ (1 << b);
+                        for (first, second) in [(n, a), (a, n)] {
+                            let _ = catch(|| tail(first));
+                            let got = catch(|| tail(second)).ok().flatten();
+                            let want = by_addr.get(&second).map(|s| s.to_string());
+                            if got != want {
+                                return Some((second, first, got, want));
+                            }
+                        }
+                    }
+                }
+                None
+            })
+            .min_by_key(|x| x.0);
+        ctx.evals(regd.len() as u64 * 24 * 4);
+        ctx.class_n("registered addresses looked up again next to each single-bit neighbour", regd.len() as u64);
+        if let Some((second, first, got, want)) = bad {
+            ctx.judge(Err(Failure::new("c14:lookup-depends-on-previous-address", format!("tail({second:06x}) gives {got:?} right after tail({first:06x}), but {want:?} in the exhaustive pass"), json!({"kind": "sequence", "addrs": [first, second]}))));
+        }
+    }
     // out-of-range values: totality only
     let bad = (0u32..(1 << 20))
         .into_par_iter()
@@ -188,6 +220,18 @@ pub fn replay(ctx: &Ctx, v: &Value) {
             let (ra, rb) = (tail(a), tail(b));
             if a != b && ra.is_some() && ra == rb {
                 ctx.judge(Err(Failure::new("c14:registration-collision", format!("{a:06x} and {b:06x} both map to {ra:?}"), v.clone())));
+            }
+        }
+        "sequence" => {
+            // the second lookup, right after the first, must give what it gives on a fresh thread
+            let a: Vec<u32> = v["addrs"].as_array().map(|x| x.iter().map(|y| y.as_u64().unwrap_or(0) as u32).collect()).unwrap_or_default();
+            if a.len() == 2 {
+                let alone = std::thread::scope(|s| s.spawn(|| tail(a[1])).join()).ok().flatten();
+                let _ = catch(|| tail(a[0]));
+                let got = catch(|| tail(a[1])).ok().flatten();
+                if got != alone {
+                    ctx.judge(Err(Failure::new("c14:lookup-depends-on-previous-address", format!("tail({:06x}) gives {got:?} right after tail({:06x}), {alone:?} alone", a[1], a[0]), v.clone())));
+                }
             }
         }
         "info" => {
